@@ -172,6 +172,9 @@ class Report:
         self.kf = load_known_findings()
         os.makedirs(os.path.join(VERIF, "evidence"), exist_ok=True)
         os.makedirs(os.path.join(VERIF, "evidence", "replay"), exist_ok=True)
+        for f in os.listdir(os.path.join(VERIF, "evidence", "replay")):
+            if f.startswith(pid + "_"):
+                os.remove(os.path.join(VERIF, "evidence", "replay", f))
 
     def replay_path(self, tag):
         return os.path.join(VERIF, "evidence", "replay", "%s_%s.txt" % (self.pid, re.sub(r"[^A-Za-z0-9_.-]", "_", tag)[:80]))
